@@ -325,6 +325,57 @@ class _NDict(dict):
         super().__setitem__(k, v)
 
 
+class KrylovWatch:
+    """Observes the Lanczos expansions of the local eigen-solves of one run (`Tensor.expand_krylov_space`, wrapped, no source
+    edit) and counts the numerically ILL-DEFINED ones: `eigs` stops expanding only below the absolute threshold 1e-13, so when
+    the Krylov space is exhausted earlier (local space smaller than ncv) with a norm of round-off size above the threshold,
+    the following basis vectors are normalised round-off, and if the selected (lowest) Ritz vector lives on them the outcome
+    of the solve is decided by round-off.  Such a run still has to satisfy the property, but two mathematically identical
+    variants of it (precompute on/off, one MPO / sum of MPOs) need not agree to a tolerance: `compare_variants` uses the
+    count to decide whether the comparison is meaningful.  Criterion: a non-final off-diagonal beta_j < 1e-6 * max|T| and a
+    weight > 1e-6 of the lowest eigenvector of T beyond j."""
+
+    def __init__(self):
+        self.solves = 0
+        self.ill = 0
+
+    def __enter__(self):
+        from yastn.tensor import Tensor
+        self._cls = Tensor
+        self._orig = orig = Tensor.__dict__["expand_krylov_space"]
+        watch = self
+
+        def w(self_, f, tol, ncv, hermitian, V, H=None, **kwargs):
+            V, H, happy = orig(self_, f, tol, ncv, hermitian, V, H, **kwargs)
+            try:
+                watch.observe(len(V) if happy else len(V) - 1, H, hermitian)
+            except Exception:
+                watch.ill += 1   # cannot judge: treat as ill-defined (only ever disables a comparison)
+            return V, H, happy
+        Tensor.expand_krylov_space = w
+        return self
+
+    def __exit__(self, *exc):
+        self._cls.expand_krylov_space = self._orig
+        return False
+
+    def observe(self, m, H, hermitian):
+        self.solves += 1
+        if not hermitian or m < 2:
+            return
+        T = np.zeros((m, m), dtype=complex)
+        for (i, j), val in H.items():
+            if i < m and j < m:
+                T[i, j] = complex(val)
+        big = max(np.abs(T).max(), 1e-300)
+        small = [j for j in range(m - 1) if abs(T[j + 1, j]) < 1e-6 * big]
+        if not small:
+            return
+        _, vec = np.linalg.eigh(T)
+        if float(np.sum(np.abs(vec[small[0] + 1:, 0]) ** 2)) > 1e-6:
+            self.ill += 1
+
+
 # ==========================================================================================================
 # random Hermitian Hamiltonians (term lists are plain JSON so that every case is replayable)
 # ==========================================================================================================
@@ -509,7 +560,7 @@ def gen_case(rng, quick, kind):
         tail = rng.choice(["1site", "1site", "2site", "mix"])
         methods = ["2site"] * 3 + [rng.choice(["1site", "2site"]) if tail == "mix" else tail for _ in range(nsw - 3)]
         D = 2 ** ((N + 1) // 2)
-        nproj = rng.choice([0, 0, 1]) if kind == "converge" else 0
+        nproj = rng.choice([0, 0, 1, 1, 2]) if kind == "converge" else 0
         Dsvd = 2 ** N
     cplx = rng.random() < 0.3
     terms = gen_terms(rng, family, sym, N, cplx=cplx, long_range=rng.random() < 0.4)
@@ -571,7 +622,9 @@ def run_dmrg(case, monitor=True, precompute=None, nsplit=None):
     outs, vecs = [], []
     mon = Monitor(psi) if monitor else None
     err = None
+    watch = KrylovWatch()
     try:
+        watch.__enter__()
         if mon:
             mon.__enter__()
         try:
@@ -590,7 +643,8 @@ def run_dmrg(case, monitor=True, precompute=None, nsplit=None):
     finally:
         if mon:
             mon.__exit__(None, None, None)
-    return {"ops": ops, "H": H, "Hs": Hs, "parts": parts, "psi": psi, "v0": v0, "outs": outs, "vecs": [v for v, _ in vecs],
+        watch.__exit__(None, None, None)
+    return {"ill_solves": watch.ill, "solves": watch.solves, "ops": ops, "H": H, "Hs": Hs, "parts": parts, "psi": psi, "v0": v0, "outs": outs, "vecs": [v for v, _ in vecs],
             "mon": mon, "err": err, "project": project, "pens": [100.0 if p is None else float(p) for p in pens]}
 
 
@@ -807,6 +861,11 @@ def compare_variants(ctx, case, res):
         if other["err"]:
             ctx.fail("oracle", "c09:exception", f"dmrg_ raised with {label} toggled: {other['err']}", case=dict(cj, variant=kw), concrete=True)
             continue
+        if res["ill_solves"] or other["ill_solves"]:
+            # a local Lanczos solve whose outcome is decided by round-off (see KrylovWatch): equality of the two runs to a
+            # tolerance is not implied by the property; each run on its own is still subject to every other oracle
+            ctx.count("variant_not_compared_illdefined_lanczos")
+            continue
         en = _rayleigh(other)
         # with a convergence tolerance the number of sweeps may legitimately differ by round-off: compare the common prefix
         same_len = len(en) == len(base) or case.get("Schmidt_tol") is not None or case.get("energy_tol") is not None
@@ -951,7 +1010,7 @@ def run(ctx):
                 "canonical or not; 'trace' cases: N=2..8 (quick 2..5), 1-3 sweeps with per-sweep method switches via "
                 "yastn.Method, precompute on/off, 0-2 random penalised states listed bare (default penalty) or as "
                 "(penalty, state) with penalties 0.1..1000; 'converge' cases: N=3..6 at maximal bond dimension, 24 sweeps "
-                "(3x'2site' then all-'1site' / all-'2site' / random mixture), 0-1 random penalised state; 'project' cases: the "
+                "(3x'2site' then all-'1site' / all-'2site' / random mixture), 0-2 random penalised states; 'project' cases: the "
                 "converged ground state is penalised (bare, (100, state), penalty below the gap, penalty above the gap) and "
                 "the run must reach the lowest level of H + p|psi0><psi0|. Every case is run on the real dmrg_ under the "
                 "run-time monitor, its event trace is diffed with the Lean model and stamp-checked, and the dense oracles "
@@ -961,7 +1020,7 @@ def run(ctx):
                         "dense references: numpy.linalg.eigvalsh / matrix-vector products on to_tensor() embeddings"]
     budget = 55 if quick else 600
     n_trace = 40 if quick else 300
-    n_conv = 8 if quick else 50
+    n_conv = 10 if quick else 60
     n_proj = 5 if quick else 24
     t_start = time.time()
     for i in range(n_trace):
